@@ -370,7 +370,7 @@ impl Property for C10 {
         vec!["native 64-bit usize (the dependency's overflow behaviour differs on wasm32)"]
     }
     fn cases(&self, tier: Tier) -> u64 {
-        tier.pick(90_000, 1_500_000)
+        tier.pick(200000, 3000000)
     }
     fn strategy(&self, _tier: Tier) -> BoxedStrategy<Case> {
         prop_oneof![
